@@ -176,8 +176,17 @@ pub fn compress_vector(
 
     if config.delta_encoding && looks_like_id_list(vector, field_name) {
         let ids: Vec<u64> = vector.iter().map(|&f| f as u64).collect();
-        let compressed = compress_ids(&ids);
-        return Ok(CompressedValue::IdList(compressed));
+        // Only when every value survives f32 -> u64 -> f32 bit for bit (a field that is merely
+        // *named* like an id list, or integral values beyond u64, stay raw).
+        #[allow(clippy::cast_precision_loss)]
+        let exact = vector
+            .iter()
+            .zip(&ids)
+            .all(|(f, &id)| (id as f32).to_bits() == f.to_bits());
+        if exact {
+            let compressed = compress_ids(&ids);
+            return Ok(CompressedValue::IdList(compressed));
+        }
     }
 
     Ok(CompressedValue::VectorRaw(vector.to_vec()))
